@@ -130,7 +130,8 @@ let run_hist_http = function
 let () = register "histh" run_hist_http
 
 (* the v1 API maps a request without postings to VALIDATION *)
-let http1_err = function M.ENoPostings -> "400:VALIDATION" | e -> http_err e
+(* ... and so does its script path for a metadata override (the v1 harness sends script creates through it) *)
+let http1_err = function M.ENoPostings | M.EMetadataOverride -> "400:VALIDATION" | e -> http_err e
 let () = register "histh1" (function
   | L [A "histh1"; feat; L ops] ->
     let f = features_of feat in
